@@ -275,6 +275,58 @@ def poolBranch (m : Mem) (ctx : Ctx) (b : BlockOp) (rounding : Rounding) (global
     let v ← poolValue b rounding globalScale scale shift vals
     applyActivation m ctx b (clamp v b.actMin b.actMax)
 
+/-- second operand of an elementwise block: its NHWC array and extent (a tensor gathered from memory, the scalar of the
+    registers, or nothing for a unary operation) -/
+def ewOperand2 (m : Mem) (b : BlockOp) (regs : RegFile) : Except String (Array Int × Nat × Nat × Nat) :=
+  let ifm2Prec := regs.get0D IFM2_PRECISION 0
+  match b.ifm2, b.ifm2Scalar with
+  | some fm, _ => do pure (← gather m fm, fm.height, fm.width, fm.depth)
+  | none, some s =>
+    let bits := if ifm2Prec / 4 % 4 = 0 then 8 else 16
+    let sv : Int := if ifm2Prec % 2 = 1 then (if bits = 8 then toSigned (s % 256) 8 else s16 s) else (s % 2 ^ bits : Nat)
+    pure (#[sv], 1, 1, 1)
+  | none, none => if elementwiseIsUnary b.subOp then pure (#[], 1, 1, 1) else throw "binary elementwise operation without second operand"
+
+/-- element `(oy, ox, oc)` of the second operand with broadcasting, zero point removed (0 for a unary operation) -/
+def ewX2 (b : BlockOp) (op2 : Array Int × Nat × Nat × Nat) (ifm2Zp : Int) (oy ox oc : Nat) : Int :=
+  if elementwiseIsUnary b.subOp then 0 else
+    op2.1.getD (((if op2.2.1 = 1 then 0 else oy) * op2.2.2.1 + (if op2.2.2.1 = 1 then 0 else ox)) * op2.2.2.2 + (if op2.2.2.2 = 1 then 0 else oc)) 0 - ifm2Zp
+
+/-- value of one elementwise element before the activation clamp; `a`, `bb` are the operands after zero-point removal (and
+    reversal) -/
+def ewValue (b : BlockOp) (rounding : Rounding) (globalScale : Bool) (a bb : Int) : Except String Int :=
+  let opa := b.opaScale.getD 0
+  let opb := b.opbScale.getD 0
+  let ofs := b.ofmScale.getD 1
+  let opToScale := b.ifmPrecision / 256 % 4
+  let ozp := b.ofm.zeroPoint
+  match b.subOp with
+  | 0 => pure (npuScale rounding (a * bb) (lo32 ofs) (hi6 ofs) + ozp)                       -- MUL
+  | 1 | 2 =>                                                                                 -- ADD / SUB
+    if !globalScale then throw "unsupported:add-without-scaling" else
+    let (sa, sb) := addOperands opToScale (b.ifm.elemBytes = 2) a bb (lo32 opa) (hi6 opa) (lo32 opb)
+    pure (npuScale rounding (if b.subOp = 1 then sa + sb else sa - sb) (lo32 ofs) (hi6 ofs) + ozp)
+  | 3 => pure (min a bb + ozp)
+  | 4 => pure (max a bb + ozp)
+  | 5 => pure ((if a ≥ 0 then a else npuScale rounding a (lo32 ofs) (hi6 ofs)) + ozp)      -- LRELU
+  | 6 => pure (npuScale rounding (if a ≥ 0 then a else -a) (lo32 ofs) (hi6 ofs) + ozp)      -- ABS
+  | mode => throw s!"unsupported:elementwise{mode}"
+
+/-- the elementwise branch of `execBlock`: the OFM values after the activation, in NHWC order; `ifm` is the IFM box as an
+    NHWC array of width `W` -/
+def ewBranch (m : Mem) (ctx : Ctx) (b : BlockOp) (regs : RegFile) (rounding : Rounding) (globalScale : Bool) (ifm : Array Int) (W : Nat) :
+    Except String (List Int) := do
+  let C := b.ifm.depth
+  if b.subOp > 6 ∨ b.subOp = 7 then throw s!"unsupported:elementwise{b.subOp}"
+  let reversed := b.ifm2Broadcast / 64 % 2 = 1
+  let ifm2Zp : Int := s16 (regs.get0D IFM2_ZERO_POINT 0)
+  let op2 ← ewOperand2 m b regs
+  (coords3 b.ofm.height b.ofm.width b.ofm.depth).mapM fun (oy, ox, oc) => do
+    let x1 := ifm.getD ((oy * W + ox) * C + oc) 0 - b.ifm.zeroPoint
+    let x2 := ewX2 b op2 ifm2Zp oy ox oc
+    let v ← if reversed then ewValue b rounding globalScale x2 x1 else ewValue b rounding globalScale x1 x2
+    applyActivation m ctx b (clamp v b.actMin b.actMax)
+
 def execBlock (m : Mem) (ctx : Ctx) (b : BlockOp) (regs : RegFile) (w : Option Weights) : Except String Mem := do
   if b.upscale > 2 then throw "reserved upscale mode"
   if b.upscale ≠ 0 ∧ b.kind == .elementwise then throw "unsupported:upscale-elementwise"
@@ -316,44 +368,7 @@ def execBlock (m : Mem) (ctx : Ctx) (b : BlockOp) (regs : RegFile) (w : Option W
   | .pool =>
     out := (← poolBranch m ctx b rounding globalScale ifm H W).toArray
   | .elementwise =>
-    let mode := b.subOp
-    if mode > 6 ∨ mode = 7 then throw s!"unsupported:elementwise{mode}"
-    let unaryOp := elementwiseIsUnary mode
-    let bc := b.ifm2Broadcast
-    let reversed := bc / 64 % 2 = 1
-    -- second operand
-    let ifm2Zp : Int := s16 (regs.get0D IFM2_ZERO_POINT 0)
-    let ifm2Prec := regs.get0D IFM2_PRECISION 0
-    let (ifm2, h2, w2, d2) ← match b.ifm2, b.ifm2Scalar with
-      | some fm, _ => do pure (← gather m fm, fm.height, fm.width, fm.depth)
-      | none, some s =>
-        let bits := if ifm2Prec / 4 % 4 = 0 then 8 else 16
-        let sv : Int := if ifm2Prec % 2 = 1 then (if bits = 8 then toSigned (s % 256) 8 else s16 s) else (s % 2 ^ bits : Nat)
-        pure (#[sv], 1, 1, 1)
-      | none, none => if unaryOp then pure (#[], 1, 1, 1) else throw "binary elementwise operation without second operand"
-    let opa := b.opaScale.getD 0
-    let opb := b.opbScale.getD 0
-    let ofs := b.ofmScale.getD 1
-    let opToScale := b.ifmPrecision / 256 % 4
-    for oy in [0:oh] do
-      for ox in [0:ow] do
-        for oc in [0:od] do
-          let x1 := ifmAt oy ox oc - zp
-          let x2 : Int := if unaryOp then 0 else
-            ifm2.getD (((if h2 = 1 then 0 else oy) * w2 + (if w2 = 1 then 0 else ox)) * d2 + (if d2 = 1 then 0 else oc)) 0 - ifm2Zp
-          let (a, bb) := if reversed then (x2, x1) else (x1, x2)
-          let v ← match mode with
-            | 0 => pure (npuScale rounding (a * bb) (lo32 ofs) (hi6 ofs) + ozp)                       -- MUL
-            | 1 | 2 =>                                                                                 -- ADD / SUB
-              if !globalScale then throw "unsupported:add-without-scaling" else
-              let (sa, sb) := addOperands opToScale (b.ifm.elemBytes = 2) a bb (lo32 opa) (hi6 opa) (lo32 opb)
-              pure (npuScale rounding (if mode = 1 then sa + sb else sa - sb) (lo32 ofs) (hi6 ofs) + ozp)
-            | 3 => pure (min a bb + ozp)
-            | 4 => pure (max a bb + ozp)
-            | 5 => pure ((if a ≥ 0 then a else npuScale rounding a (lo32 ofs) (hi6 ofs)) + ozp)      -- LRELU
-            | 6 => pure (npuScale rounding (if a ≥ 0 then a else -a) (lo32 ofs) (hi6 ofs) + ozp)      -- ABS
-            | _ => throw s!"unsupported:elementwise{mode}"
-          out := out.push (← finish v)
+    out := (← ewBranch m ctx b regs rounding globalScale ifm W).toArray
   | .dma => throw "dma is not a block operation"
   scatter m b.ofm out
 
